@@ -76,7 +76,9 @@ PermFails(ev, st) ==
 \* a file from which one line is missing (possibly one that others depend on): every message that still finds its port is applied
 \* exactly as if the lines stood in dependency order; a line whose port does not exist any more makes the load fail
 SeqToLines(st, idxs, lines) == { ln \in SaveLines(st) : \E i \in idxs : lines[i].addr = ln.addr }
-AllFound(lines) == \A ln \in lines : Param(ln.addr \o (IF ln.addr \in ArrayLineAddrs THEN "0" ELSE "")).where # "psub" \/ (\E m \in lines : m.addr = "/palloc")
+AllFound(lines) == \A ln \in lines : LET w == Param(ln.addr \o (IF ln.addr \in ArrayLineAddrs THEN "0" ELSE "")).where IN
+                     /\ (w = "psub" => \E m \in lines : m.addr = "/palloc")
+                     /\ (w \in {"fx", "fxv"} => \E m \in lines : m.addr = "/fx_on")
 DropFails(ev, st) ==
   {k \in {"c13:missing_line_state", "c13:missing_line_result"} :
    ~ CASE k = "c13:missing_line_state" -> \A i \in 1..Len(ev.drops) :
